@@ -37,7 +37,7 @@ TInit == /\ InitFrom(InitState(<<"c">>, "absent", NoDF, <<[mode |-> "E", o |-> F
 
 Cfg(r) == InitState(r.ins, r.pre, r.df, <<[mode |-> r.mode, o |-> r.o]>>, <<r.fault>>)
 
-Class(t) == IF t \in {"absent", "src", "bad", "badgen", "old"} THEN t ELSE SubSeq(t, 1, 1)
+Class(t) == IF t \in {"absent", "src", "bad", "badgen", "old", "dir", "loop"} THEN t ELSE SubSeq(t, 1, 1)
 
 (* what the child was seen doing must fit what it was started for (no other watched path is
    touched: in particular no temporary of another process), a successful child has written its
